@@ -131,7 +131,7 @@ Section SchemaProofs.
     = resolve_template Audit (Some {| sc_version := sc_version r; sc_chart := sc_chart r; sc_templates := []; sc_created := sc_created r |}) "" i.
   Proof.
     intros H. unfold resolve_template. destruct i; simpl; try (split; reflexivity).
-    destruct (sc_templates r); [split; reflexivity|]. rewrite H. split; reflexivity.
+    all: destruct (sc_templates r); [split; reflexivity|]; rewrite H; split; reflexivity.
   Qed.
 
   Theorem audit_template_optional now ss v o r s1 p :
